@@ -39,7 +39,12 @@ def main():
     res = {"seed": seed_id, "property": prop}
     try:
         os.makedirs(os.path.join(wt, "SEED", "X"), exist_ok=True)
-        shutil.copy(demo, os.path.join(wt, "SEED", "X", "demo.py"))
+        # demos of later rounds name the volunteer's own worktree (the interpreter has another copy of the library
+        # installed, so they put the worktree first on sys.path): point them at the scratch worktree used here
+        agent_wt = os.path.dirname(os.path.dirname(os.path.abspath(seed_dir)))
+        txt = open(demo).read()
+        res["demo_names_worktree"] = agent_wt if agent_wt in txt else None
+        open(os.path.join(wt, "SEED", "X", "demo.py"), "w").write(txt.replace(agent_wt, wt))
         env = dict(os.environ, PYTHONPATH=wt)
         env.pop("JV_REPO", None)
         d0 = sh("/venv/bin/python SEED/X/demo.py", cwd=wt, env=env, timeout=300)
